@@ -40,7 +40,7 @@ func orderedSubsets(n int) [][]int {
 func TestC05(t *testing.T) {
 	e := vh.Load(t)
 	st := vh.NewStats("block-service histories (1..8 ops: AddBlock/AddBlocks/GetBlock/GetBlocks/DeleteBlock; request lists <= 10 keys with duplicates, " +
-		"invalid CIDs, partially local data; plain/session/context-session paths; exchange answers = every ordered subset of <= 4 misses (corpus), " +
+		"invalid CIDs, partially local data; plain/session/context-session paths and contexts carrying an embedded session of a SECOND block service (own store and exchange); exchange answers = every ordered subset of <= 4 misses (corpus), " +
 		"random subsets/orders/duplicates, and hostile answers: unrequested blocks, same multihash under another CID, corrupt bytes; injected " +
 		"blockstore/exchange faults) on the real blockservice. non-trivial = the exchange was asked at least once in the history; distinct by full case text")
 	cs := vh.NewCases(e, "From V Require Import lib.BlockSvc model.M_C04 model.M_C05.\nOpen Scope Z_scope.", "case", "check_case", 250)
@@ -114,7 +114,7 @@ func TestC05(t *testing.T) {
 		return func([]*bsvc.ACid) ([]*bsvc.ABlk, bool) { return xs, false }
 	}
 	for ex := 1; ex <= 2; ex++ {
-		for path := 0; path < 3; path++ {
+		for path := 0; path < bsvc.NPaths; path++ {
 			cfg := bsvc.Config{Al: def, CheckFirst: path != 1, Ex: ex, ExplicitDefault: path == 2}
 			// finding C05-2 witness: requested CID over other bytes, single and batched; then a local re-read
 			emit(cfg, bsvc.Run(u, cfg, []*bsvc.Op{
@@ -139,6 +139,20 @@ func TestC05(t *testing.T) {
 			}), "corpus-same-multihash")
 		}
 	}
+	// a context that carries an embedded session of ANOTHER block service must not redirect the call:
+	// local blocks are served locally (no exchange is asked), fetched ones are cached in the called service
+	for ex := 1; ex <= 2; ex++ {
+		for path := 3; path < bsvc.NPaths; path++ {
+			cfg := bsvc.Config{Al: def, CheckFirst: true, Ex: ex}
+			emit(cfg, bsvc.Run(u, cfg, []*bsvc.Op{
+				{Kind: "Add", Blk: u.Block(loc, 5), On1: honest1, OnN: honestN},
+				{Kind: "Get", Path: path, Cid: loc, On1: honest1, OnN: honestN},
+				{Kind: "Get", Path: path, Cid: a, On1: honest1, OnN: honestN},
+				{Kind: "GetMany", Path: path, Keys: []*bsvc.ACid{loc, b, a}, On1: honest1, OnN: honestN},
+				{Kind: "Get", Path: 0, Cid: b, On1: honest1, OnN: honestN},
+			}), "corpus-foreign-session-context")
+		}
+	}
 	// every ordered subset of the misses, for 1..4 misses (plus one local key and a duplicate)
 	miss := []*bsvc.ACid{a, b, c0, d}
 	for n := 1; n <= 4; n++ {
@@ -152,7 +166,7 @@ func TestC05(t *testing.T) {
 			cfg := bsvc.Config{Al: def, CheckFirst: true, Ex: 1 + i%2}
 			emit(cfg, bsvc.Run(u, cfg, []*bsvc.Op{
 				{Kind: "Add", Blk: u.Block(loc, 5), On1: honest1, OnN: honestN},
-				{Kind: "GetMany", Path: i % 3, Keys: keys, On1: honest1, OnN: ansN(resp...)},
+				{Kind: "GetMany", Path: i % bsvc.NPaths, Keys: keys, On1: honest1, OnN: ansN(resp...)},
 			}), "corpus-ordered-subset")
 		}
 	}
@@ -161,8 +175,8 @@ func TestC05(t *testing.T) {
 		cfg := bsvc.Config{Al: def, CheckFirst: true, Ex: 1 + i%2}
 		emit(cfg, bsvc.Run(u, cfg, []*bsvc.Op{
 			{Kind: "Add", Blk: u.Block(loc, 5), On1: honest1, OnN: honestN},
-			{Kind: "GetMany", Path: i % 3, Keys: []*bsvc.ACid{a, loc, b, d}, On1: honest1, OnN: honestN, Faults: f},
-			{Kind: "Get", Path: i % 3, Cid: a, On1: honest1, OnN: honestN, Faults: f},
+			{Kind: "GetMany", Path: i % bsvc.NPaths, Keys: []*bsvc.ACid{a, loc, b, d}, On1: honest1, OnN: honestN, Faults: f},
+			{Kind: "Get", Path: i % bsvc.NPaths, Cid: a, On1: honest1, OnN: honestN, Faults: f},
 		}), "corpus-faults")
 	}
 
